@@ -307,7 +307,7 @@ speck_inst!(s128_128, Speck128_128, u64, bb = 128, kb = 128, t = 32);
 speck_inst!(s128_192, Speck128_192, u64, bb = 128, kb = 192, t = 33);
 speck_inst!(s128_256, Speck128_256, u64, bb = 128, kb = 256, t = 34);
 
-//@ harness name=speck_leaf_round prop=C10,C20 tier=quick bits=192 est=15 desc="D: round_function / inverse_round_function of all ten Speck types == R_k / R_k^-1 of the paper (alpha/beta 7/2 for n=16 else 8/3), round_function for all x, y < 2^n and all k incl. garbage above bit n (outputs stay < 2^n); inverse_round_function for all x, y, k incl. garbage above bit n, results modulo 2^n (rotates of 24/48-bit words in u32/u64 carriers)"
+//@ harness name=speck_leaf_round prop=C10,C20 tier=quick bits=192 est=10 desc="D: round_function / inverse_round_function of all ten Speck types == R_k / R_k^-1 of the paper (alpha/beta 7/2 for n=16 else 8/3), round_function for all x, y < 2^n and all k incl. garbage above bit n (outputs stay < 2^n); inverse_round_function for all x, y, k incl. garbage above bit n, results modulo 2^n (rotates of 24/48-bit words in u32/u64 carriers)"
 verif_harness! {
     name: speck_leaf_round,
     bytes: 24,
@@ -351,21 +351,21 @@ verif_harness! {
 
 // ------------------------------------------------------------------ Speck32_64
 
-//@ harness name=speck32_64_ks prop=C10,C20 tier=quick bits=64 est=25 desc="D: Speck32_64::new(key).k == key schedule of the paper (22 round keys, 16-bit words), all 2^64 keys"
+//@ harness name=speck32_64_ks prop=C10,C20 tier=quick bits=64 est=20 desc="D: Speck32_64::new(key).k == key schedule of the paper (22 round keys, 16-bit words), all 2^64 keys"
 verif_harness! {
     name: speck32_64_ks,
     bytes: 8,
     unwind: 40,
     prop: |inp| { s32_64::ks(inp) }
 }
-//@ harness name=speck32_64_rounds prop=C10,C20 tier=quick bits=384 est=30 desc="D: Speck32_64 encrypt_block / decrypt_block == oracle on an ARBITRARY round-key state (garbage above bit 16 allowed), all blocks"
+//@ harness name=speck32_64_rounds prop=C10,C20 tier=quick bits=384 est=20 desc="D: Speck32_64 encrypt_block / decrypt_block == oracle on an ARBITRARY round-key state (garbage above bit 16 allowed), all blocks"
 verif_harness! {
     name: speck32_64_rounds,
     bytes: 48,
     unwind: 40,
     prop: |inp| { s32_64::rounds(inp) }
 }
-//@ harness name=speck32_64_rt prop=C01,C20 tier=quick bits=384 est=95 desc="D: Speck32_64 dec(enc(b)) == b and enc(dec(b)) == b on an ARBITRARY round-key state, all blocks"
+//@ harness name=speck32_64_rt prop=C01,C20 tier=quick bits=384 est=90 desc="D: Speck32_64 dec(enc(b)) == b and enc(dec(b)) == b on an ARBITRARY round-key state, all blocks"
 verif_harness! {
     name: speck32_64_rt,
     bytes: 48,
@@ -375,21 +375,21 @@ verif_harness! {
 
 // ------------------------------------------------------------------ Speck48_72
 
-//@ harness name=speck48_72_ks prop=C10,C20 tier=quick bits=72 est=35 desc="D: Speck48_72::new(key).k == key schedule of the paper (22 round keys, 24-bit words), all 2^72 keys"
+//@ harness name=speck48_72_ks prop=C10,C20 tier=quick bits=72 est=25 desc="D: Speck48_72::new(key).k == key schedule of the paper (22 round keys, 24-bit words), all 2^72 keys"
 verif_harness! {
     name: speck48_72_ks,
     bytes: 9,
     unwind: 40,
     prop: |inp| { s48_72::ks(inp) }
 }
-//@ harness name=speck48_72_rounds prop=C10,C20 tier=quick bits=752 est=35 desc="D: Speck48_72 encrypt_block / decrypt_block == oracle on an ARBITRARY round-key state (garbage above bit 24 allowed), all blocks"
+//@ harness name=speck48_72_rounds prop=C10,C20 tier=quick bits=752 est=30 desc="D: Speck48_72 encrypt_block / decrypt_block == oracle on an ARBITRARY round-key state (garbage above bit 24 allowed), all blocks"
 verif_harness! {
     name: speck48_72_rounds,
     bytes: 94,
     unwind: 40,
     prop: |inp| { s48_72::rounds(inp) }
 }
-//@ harness name=speck48_72_rt prop=C01,C20 tier=quick bits=752 est=65 desc="D: Speck48_72 dec(enc(b)) == b and enc(dec(b)) == b on an ARBITRARY round-key state, all blocks"
+//@ harness name=speck48_72_rt prop=C01,C20 tier=quick bits=752 est=60 desc="D: Speck48_72 dec(enc(b)) == b and enc(dec(b)) == b on an ARBITRARY round-key state, all blocks"
 verif_harness! {
     name: speck48_72_rt,
     bytes: 94,
@@ -399,21 +399,21 @@ verif_harness! {
 
 // ------------------------------------------------------------------ Speck48_96
 
-//@ harness name=speck48_96_ks prop=C10,C20 tier=quick bits=96 est=35 desc="D: Speck48_96::new(key).k == key schedule of the paper (23 round keys, 24-bit words), all 2^96 keys"
+//@ harness name=speck48_96_ks prop=C10,C20 tier=quick bits=96 est=25 desc="D: Speck48_96::new(key).k == key schedule of the paper (23 round keys, 24-bit words), all 2^96 keys"
 verif_harness! {
     name: speck48_96_ks,
     bytes: 12,
     unwind: 40,
     prop: |inp| { s48_96::ks(inp) }
 }
-//@ harness name=speck48_96_rounds prop=C10,C20 tier=quick bits=784 est=40 desc="D: Speck48_96 encrypt_block / decrypt_block == oracle on an ARBITRARY round-key state (garbage above bit 24 allowed), all blocks"
+//@ harness name=speck48_96_rounds prop=C10,C20 tier=quick bits=784 est=35 desc="D: Speck48_96 encrypt_block / decrypt_block == oracle on an ARBITRARY round-key state (garbage above bit 24 allowed), all blocks"
 verif_harness! {
     name: speck48_96_rounds,
     bytes: 98,
     unwind: 40,
     prop: |inp| { s48_96::rounds(inp) }
 }
-//@ harness name=speck48_96_rt prop=C01,C20 tier=quick bits=784 est=95 desc="D: Speck48_96 dec(enc(b)) == b and enc(dec(b)) == b on an ARBITRARY round-key state, all blocks"
+//@ harness name=speck48_96_rt prop=C01,C20 tier=quick bits=784 est=85 desc="D: Speck48_96 dec(enc(b)) == b and enc(dec(b)) == b on an ARBITRARY round-key state, all blocks"
 verif_harness! {
     name: speck48_96_rt,
     bytes: 98,
@@ -423,7 +423,7 @@ verif_harness! {
 
 // ------------------------------------------------------------------ Speck64_96
 
-//@ harness name=speck64_96_ks prop=C10,C20 tier=quick bits=96 est=35 desc="D: Speck64_96::new(key).k == key schedule of the paper (26 round keys, 32-bit words), all 2^96 keys"
+//@ harness name=speck64_96_ks prop=C10,C20 tier=quick bits=96 est=30 desc="D: Speck64_96::new(key).k == key schedule of the paper (26 round keys, 32-bit words), all 2^96 keys"
 verif_harness! {
     name: speck64_96_ks,
     bytes: 12,
@@ -447,7 +447,7 @@ verif_harness! {
 
 // ------------------------------------------------------------------ Speck64_128
 
-//@ harness name=speck64_128_ks prop=C10,C20 tier=quick bits=128 est=40 desc="D: Speck64_128::new(key).k == key schedule of the paper (27 round keys, 32-bit words), all 2^128 keys"
+//@ harness name=speck64_128_ks prop=C10,C20 tier=quick bits=128 est=30 desc="D: Speck64_128::new(key).k == key schedule of the paper (27 round keys, 32-bit words), all 2^128 keys"
 verif_harness! {
     name: speck64_128_ks,
     bytes: 16,
@@ -461,7 +461,7 @@ verif_harness! {
     unwind: 40,
     prop: |inp| { s64_128::rounds(inp) }
 }
-//@ harness name=speck64_128_rt prop=C01,C20 tier=quick bits=928 est=165 desc="D: Speck64_128 dec(enc(b)) == b and enc(dec(b)) == b on an ARBITRARY round-key state, all blocks"
+//@ harness name=speck64_128_rt prop=C01,C20 tier=quick bits=928 est=160 desc="D: Speck64_128 dec(enc(b)) == b and enc(dec(b)) == b on an ARBITRARY round-key state, all blocks"
 verif_harness! {
     name: speck64_128_rt,
     bytes: 116,
@@ -471,7 +471,7 @@ verif_harness! {
 
 // ------------------------------------------------------------------ Speck96_96
 
-//@ harness name=speck96_96_w_ks prop=C10,C20 tier=quick bits=96 stub=1 est=25 desc="W: Speck96_96::new(key).k == key schedule of the paper (28 round keys, 48-bit words in u64) with round_function uninterpreted (shared with the oracle: (l_(i+m-1), k_(i+1)) = R_i(l_i, k_i)), all keys"
+//@ harness name=speck96_96_w_ks prop=C10,C20 tier=quick bits=96 stub=1 est=15 desc="W: Speck96_96::new(key).k == key schedule of the paper (28 round keys, 48-bit words in u64) with round_function uninterpreted (shared with the oracle: (l_(i+m-1), k_(i+1)) = R_i(l_i, k_i)), all keys"
 verif_harness! {
     name: speck96_96_w_ks,
     bytes: 12,
@@ -479,7 +479,7 @@ verif_harness! {
     stubs: [(crate::Speck96_96::round_function, s96_96::stub_rf), (crate::Speck96_96::inverse_round_function, s96_96::stub_irf)],
     prop: |inp| { s96_96::ks_w(inp) }
 }
-//@ harness name=speck96_96_w_rounds prop=C10,C20 tier=quick bits=1888 stub=1 est=30 desc="W: Speck96_96 encrypt_block and decrypt_block == oracle (28 rounds, round keys in reverse, byte order) on an ARBITRARY round-key state, all blocks; round_function / inverse_round_function uninterpreted, shared with the oracle"
+//@ harness name=speck96_96_w_rounds prop=C10,C20 tier=quick bits=1888 stub=1 est=25 desc="W: Speck96_96 encrypt_block and decrypt_block == oracle (28 rounds, round keys in reverse, byte order) on an ARBITRARY round-key state, all blocks; round_function / inverse_round_function uninterpreted, shared with the oracle"
 verif_harness! {
     name: speck96_96_w_rounds,
     bytes: 236,
@@ -487,7 +487,7 @@ verif_harness! {
     stubs: [(crate::Speck96_96::round_function, s96_96::stub_rf), (crate::Speck96_96::inverse_round_function, s96_96::stub_irf)],
     prop: |inp| { s96_96::rounds_w(inp) }
 }
-//@ harness name=speck96_96_w_rt prop=C01,C20 tier=quick bits=1888 stub=1 est=30 desc="W: Speck96_96 decrypt_block(encrypt_block(b)) == b and encrypt_block(decrypt_block(b)) == b on an ARBITRARY round-key state, all blocks; round_function / inverse_round_function uninterpreted mutual inverses (leaf lemma speck_leaf_inverse)"
+//@ harness name=speck96_96_w_rt prop=C01,C20 tier=quick bits=1888 stub=1 est=25 desc="W: Speck96_96 decrypt_block(encrypt_block(b)) == b and encrypt_block(decrypt_block(b)) == b on an ARBITRARY round-key state, all blocks; round_function / inverse_round_function uninterpreted mutual inverses (leaf lemma speck_leaf_inverse)"
 verif_harness! {
     name: speck96_96_w_rt,
     bytes: 236,
@@ -506,7 +506,7 @@ verif_harness! {
     stubs: [(crate::Speck96_144::round_function, s96_144::stub_rf), (crate::Speck96_144::inverse_round_function, s96_144::stub_irf)],
     prop: |inp| { s96_144::ks_w(inp) }
 }
-//@ harness name=speck96_144_w_rounds prop=C10,C20 tier=quick bits=1952 stub=1 est=35 desc="W: Speck96_144 encrypt_block and decrypt_block == oracle (29 rounds, round keys in reverse, byte order) on an ARBITRARY round-key state, all blocks; round_function / inverse_round_function uninterpreted, shared with the oracle"
+//@ harness name=speck96_144_w_rounds prop=C10,C20 tier=quick bits=1952 stub=1 est=25 desc="W: Speck96_144 encrypt_block and decrypt_block == oracle (29 rounds, round keys in reverse, byte order) on an ARBITRARY round-key state, all blocks; round_function / inverse_round_function uninterpreted, shared with the oracle"
 verif_harness! {
     name: speck96_144_w_rounds,
     bytes: 244,
@@ -514,7 +514,7 @@ verif_harness! {
     stubs: [(crate::Speck96_144::round_function, s96_144::stub_rf), (crate::Speck96_144::inverse_round_function, s96_144::stub_irf)],
     prop: |inp| { s96_144::rounds_w(inp) }
 }
-//@ harness name=speck96_144_w_rt prop=C01,C20 tier=quick bits=1952 stub=1 est=35 desc="W: Speck96_144 decrypt_block(encrypt_block(b)) == b and encrypt_block(decrypt_block(b)) == b on an ARBITRARY round-key state, all blocks; round_function / inverse_round_function uninterpreted mutual inverses (leaf lemma speck_leaf_inverse)"
+//@ harness name=speck96_144_w_rt prop=C01,C20 tier=quick bits=1952 stub=1 est=30 desc="W: Speck96_144 decrypt_block(encrypt_block(b)) == b and encrypt_block(decrypt_block(b)) == b on an ARBITRARY round-key state, all blocks; round_function / inverse_round_function uninterpreted mutual inverses (leaf lemma speck_leaf_inverse)"
 verif_harness! {
     name: speck96_144_w_rt,
     bytes: 244,
@@ -525,7 +525,7 @@ verif_harness! {
 
 // ------------------------------------------------------------------ Speck128_128
 
-//@ harness name=speck128_128_w_ks prop=C10,C20 tier=quick bits=128 stub=1 est=25 desc="W: Speck128_128::new(key).k == key schedule of the paper (32 round keys, 64-bit words in u64) with round_function uninterpreted (shared with the oracle: (l_(i+m-1), k_(i+1)) = R_i(l_i, k_i)), all keys"
+//@ harness name=speck128_128_w_ks prop=C10,C20 tier=quick bits=128 stub=1 est=15 desc="W: Speck128_128::new(key).k == key schedule of the paper (32 round keys, 64-bit words in u64) with round_function uninterpreted (shared with the oracle: (l_(i+m-1), k_(i+1)) = R_i(l_i, k_i)), all keys"
 verif_harness! {
     name: speck128_128_w_ks,
     bytes: 16,
@@ -541,7 +541,7 @@ verif_harness! {
     stubs: [(crate::Speck128_128::round_function, s128_128::stub_rf), (crate::Speck128_128::inverse_round_function, s128_128::stub_irf)],
     prop: |inp| { s128_128::rounds_w(inp) }
 }
-//@ harness name=speck128_128_w_rt prop=C01,C20 tier=quick bits=2176 stub=1 est=35 desc="W: Speck128_128 decrypt_block(encrypt_block(b)) == b and encrypt_block(decrypt_block(b)) == b on an ARBITRARY round-key state, all blocks; round_function / inverse_round_function uninterpreted mutual inverses (leaf lemma speck_leaf_inverse)"
+//@ harness name=speck128_128_w_rt prop=C01,C20 tier=quick bits=2176 stub=1 est=30 desc="W: Speck128_128 decrypt_block(encrypt_block(b)) == b and encrypt_block(decrypt_block(b)) == b on an ARBITRARY round-key state, all blocks; round_function / inverse_round_function uninterpreted mutual inverses (leaf lemma speck_leaf_inverse)"
 verif_harness! {
     name: speck128_128_w_rt,
     bytes: 272,
@@ -552,7 +552,7 @@ verif_harness! {
 
 // ------------------------------------------------------------------ Speck128_192
 
-//@ harness name=speck128_192_w_ks prop=C10,C20 tier=quick bits=192 stub=1 est=25 desc="W: Speck128_192::new(key).k == key schedule of the paper (33 round keys, 64-bit words in u64) with round_function uninterpreted (shared with the oracle: (l_(i+m-1), k_(i+1)) = R_i(l_i, k_i)), all keys"
+//@ harness name=speck128_192_w_ks prop=C10,C20 tier=quick bits=192 stub=1 est=20 desc="W: Speck128_192::new(key).k == key schedule of the paper (33 round keys, 64-bit words in u64) with round_function uninterpreted (shared with the oracle: (l_(i+m-1), k_(i+1)) = R_i(l_i, k_i)), all keys"
 verif_harness! {
     name: speck128_192_w_ks,
     bytes: 24,
@@ -560,7 +560,7 @@ verif_harness! {
     stubs: [(crate::Speck128_192::round_function, s128_192::stub_rf), (crate::Speck128_192::inverse_round_function, s128_192::stub_irf)],
     prop: |inp| { s128_192::ks_w(inp) }
 }
-//@ harness name=speck128_192_w_rounds prop=C10,C20 tier=quick bits=2240 stub=1 est=30 desc="W: Speck128_192 encrypt_block and decrypt_block == oracle (33 rounds, round keys in reverse, byte order) on an ARBITRARY round-key state, all blocks; round_function / inverse_round_function uninterpreted, shared with the oracle"
+//@ harness name=speck128_192_w_rounds prop=C10,C20 tier=quick bits=2240 stub=1 est=35 desc="W: Speck128_192 encrypt_block and decrypt_block == oracle (33 rounds, round keys in reverse, byte order) on an ARBITRARY round-key state, all blocks; round_function / inverse_round_function uninterpreted, shared with the oracle"
 verif_harness! {
     name: speck128_192_w_rounds,
     bytes: 280,
@@ -568,7 +568,7 @@ verif_harness! {
     stubs: [(crate::Speck128_192::round_function, s128_192::stub_rf), (crate::Speck128_192::inverse_round_function, s128_192::stub_irf)],
     prop: |inp| { s128_192::rounds_w(inp) }
 }
-//@ harness name=speck128_192_w_rt prop=C01,C20 tier=quick bits=2240 stub=1 est=40 desc="W: Speck128_192 decrypt_block(encrypt_block(b)) == b and encrypt_block(decrypt_block(b)) == b on an ARBITRARY round-key state, all blocks; round_function / inverse_round_function uninterpreted mutual inverses (leaf lemma speck_leaf_inverse)"
+//@ harness name=speck128_192_w_rt prop=C01,C20 tier=quick bits=2240 stub=1 est=30 desc="W: Speck128_192 decrypt_block(encrypt_block(b)) == b and encrypt_block(decrypt_block(b)) == b on an ARBITRARY round-key state, all blocks; round_function / inverse_round_function uninterpreted mutual inverses (leaf lemma speck_leaf_inverse)"
 verif_harness! {
     name: speck128_192_w_rt,
     bytes: 280,
@@ -579,7 +579,7 @@ verif_harness! {
 
 // ------------------------------------------------------------------ Speck128_256
 
-//@ harness name=speck128_256_w_ks prop=C10,C20 tier=quick bits=256 stub=1 est=25 desc="W: Speck128_256::new(key).k == key schedule of the paper (34 round keys, 64-bit words in u64) with round_function uninterpreted (shared with the oracle: (l_(i+m-1), k_(i+1)) = R_i(l_i, k_i)), all keys"
+//@ harness name=speck128_256_w_ks prop=C10,C20 tier=quick bits=256 stub=1 est=20 desc="W: Speck128_256::new(key).k == key schedule of the paper (34 round keys, 64-bit words in u64) with round_function uninterpreted (shared with the oracle: (l_(i+m-1), k_(i+1)) = R_i(l_i, k_i)), all keys"
 verif_harness! {
     name: speck128_256_w_ks,
     bytes: 32,
@@ -587,7 +587,7 @@ verif_harness! {
     stubs: [(crate::Speck128_256::round_function, s128_256::stub_rf), (crate::Speck128_256::inverse_round_function, s128_256::stub_irf)],
     prop: |inp| { s128_256::ks_w(inp) }
 }
-//@ harness name=speck128_256_w_rounds prop=C10,C20 tier=quick bits=2304 stub=1 est=30 desc="W: Speck128_256 encrypt_block and decrypt_block == oracle (34 rounds, round keys in reverse, byte order) on an ARBITRARY round-key state, all blocks; round_function / inverse_round_function uninterpreted, shared with the oracle"
+//@ harness name=speck128_256_w_rounds prop=C10,C20 tier=quick bits=2304 stub=1 est=35 desc="W: Speck128_256 encrypt_block and decrypt_block == oracle (34 rounds, round keys in reverse, byte order) on an ARBITRARY round-key state, all blocks; round_function / inverse_round_function uninterpreted, shared with the oracle"
 verif_harness! {
     name: speck128_256_w_rounds,
     bytes: 288,
@@ -595,7 +595,7 @@ verif_harness! {
     stubs: [(crate::Speck128_256::round_function, s128_256::stub_rf), (crate::Speck128_256::inverse_round_function, s128_256::stub_irf)],
     prop: |inp| { s128_256::rounds_w(inp) }
 }
-//@ harness name=speck128_256_w_rt prop=C01,C20 tier=quick bits=2304 stub=1 est=40 desc="W: Speck128_256 decrypt_block(encrypt_block(b)) == b and encrypt_block(decrypt_block(b)) == b on an ARBITRARY round-key state, all blocks; round_function / inverse_round_function uninterpreted mutual inverses (leaf lemma speck_leaf_inverse)"
+//@ harness name=speck128_256_w_rt prop=C01,C20 tier=quick bits=2304 stub=1 est=30 desc="W: Speck128_256 decrypt_block(encrypt_block(b)) == b and encrypt_block(decrypt_block(b)) == b on an ARBITRARY round-key state, all blocks; round_function / inverse_round_function uninterpreted mutual inverses (leaf lemma speck_leaf_inverse)"
 verif_harness! {
     name: speck128_256_w_rt,
     bytes: 288,
